@@ -186,7 +186,7 @@ class NotificationCenter(object):
             for key in holdDisabledPossibilities:
                 if key in self._holds:
                     n = (notification, observableRef, data, _observerRef)
-                    if n not in self._holds[key]["notifications"]:
+                    if not _isQueued(n, self._holds[key]["notifications"]):
                         self._holds[key]["notifications"].append(n)
                     return
         # posting
@@ -233,7 +233,7 @@ class NotificationCenter(object):
                             if holdKey in self._holds:
                                 hold = True
                                 n = (notification, observableRef, data, observerRef)
-                                if n not in self._holds[holdKey]["notifications"]:
+                                if not _isQueued(n, self._holds[holdKey]["notifications"]):
                                     self._holds[holdKey]["notifications"].append(n)
                                 break
                     if hold:
@@ -470,6 +470,29 @@ class NotificationCenter(object):
                 )
                 found.append(observation)
         return found
+
+
+def _isQueued(heldNotification, heldNotifications):
+    # Is this notification (name, observable, data, observer) already held?
+    # The observable and the observer are compared by identity: two weakrefs
+    # are equal when their objects are equal, and dict-like objects (Lib,
+    # Kerning, Groups, Image) with the same contents are equal.
+    name, observableRef, data, observerRef = heldNotification
+    observable = observableRef()
+    observer = None if observerRef is None else observerRef()
+    for otherName, otherObservableRef, otherData, otherObserverRef in heldNotifications:
+        if otherName != name:
+            continue
+        if otherObservableRef() is not observable:
+            continue
+        if (otherObserverRef is None) != (observerRef is None):
+            continue
+        if otherObserverRef is not None and otherObserverRef() is not observer:
+            continue
+        if otherData != data:
+            continue
+        return True
+    return False
 
 
 class Notification(object):
